@@ -78,6 +78,7 @@ type DownStream struct {
 // BConn is one accepted transport incarnation on the broker side.
 type BConn struct {
 	Idx     int
+	DialNo  int // which dial attempt (0-based, counting refused ones) created this incarnation
 	Link    *Link
 	tr      *encoding.Transport
 	utr     *encoding.Transport
@@ -211,7 +212,7 @@ func (b *Broker) Dialer() transport.Dialer {
 			return nil, fmt.Errorf("sim: dial refused")
 		}
 		l := NewLink(len(b.Conns), b.S.Unreliable, cfg.NegotiationParams())
-		c := &BConn{Idx: len(b.Conns), Link: l, upAlias: map[uint32]*UpStream{}, dnAlias: map[uint32]*DownStream{}, rxCount: map[string]int{}}
+		c := &BConn{Idx: len(b.Conns), DialNo: n, Link: l, upAlias: map[uint32]*UpStream{}, dnAlias: map[uint32]*DownStream{}, rxCount: map[string]int{}}
 		c.tr = encoding.NewTransport(&encoding.TransportConfig{Transport: l.Server, Encoding: protobuf.NewEncoding()})
 		if l.Server.unrel != nil {
 			c.utr = encoding.NewTransport(&encoding.TransportConfig{Transport: l.Server.unrel, Encoding: protobuf.NewEncoding()})
